@@ -50,8 +50,9 @@ func ghostFor(t types.Type) string {
 	return ""
 }
 
-// maxLenLit: no slice or string has 2^56 or more elements (amd64 address space).
-const maxLenLit = "72057594037927936"
+// maxLenLit: no slice or string has more than 2^48 elements (the Go runtime's
+// maximum allocation size on 64-bit platforms).
+const maxLenLit = "281474976710656"
 
 func isByteElem(t types.Type) bool {
 	b, ok := t.Underlying().(*types.Basic)
@@ -163,9 +164,9 @@ func (x *Exec) toTV(st *State, v Val, t types.Type) TV {
 		}
 		// statically known dynamic type: identity is the payload reference
 		if p, ok := u.Payload.(PtrV); ok && p.Ref != "" && len(p.Path) == 0 {
-			x.w.Decl("(declare-fun g_dyn (Int) Int)")
+			dynDecl(x)
 			st.assume(tEq(app("g_dyn", p.Ref), num(x.typeTag(u.Dyn))))
-			x.ifaceStored(st, u, p.Ref)
+			x.ifaceStored(st, u, p)
 			return TV{SInt, p.Ref}
 		}
 		id := st.fresh("iface", SInt)
@@ -385,7 +386,7 @@ func (x *Exec) symVal(st *State, hint string, t types.Type) Val {
 			return ErrV{Class: c, Wrapped: st.fresh(hint+"_w", SBool)}
 		}
 		id := st.fresh(hint, SInt)
-		st.assume(tCmp("<=", "0", id))
+		st.assume(tAnd(tCmp("<=", "0", id), tCmp("<", id, st.top)))
 		iv := IfaceV{Sym: id, Static: t}
 		x.initIfaceGhost(st, iv)
 		return iv
@@ -581,4 +582,22 @@ func (x *Exec) freshBytes(st *State, hint string) string {
 	st.assume(app("g_isbytes", n))
 	st.assume(tAnd(tCmp("<=", "0", sLen(SSeqI, n)), tCmp("<=", sLen(SSeqI, n), maxLenLit)))
 	return n
+}
+
+// peek: the current content of a window without freezing its backing cell.
+func (x *Exec) peek(st *State, s SliceV) string {
+	switch cv := st.cells[s.Cell].(type) {
+	case TV:
+		if s.Lo == "0" && x.cellLen(st, s.Cell) == s.Hi {
+			return cv.E
+		}
+		return sSl(cv.S, cv.E, s.Lo, s.Hi)
+	}
+	return x.freeze(st, s)
+}
+
+// dynDecl declares the dynamic-type tag of interface identities (0 = nil).
+func dynDecl(x *Exec) {
+	x.w.Decl("(declare-fun g_dyn (Int) Int)")
+	x.w.Decl("(assert (= (g_dyn 0) 0))")
 }
